@@ -73,13 +73,19 @@ def run_checks(patch, props):
         if rc != 0:
             return {"error": "patch does not apply: " + o[:200]}
 
-        def one(p):
-            rc, out = sh([ROOT + "/bin/rainlint", "-prop", p, "-repo", tmp, "-verif", ROOT, "-no-evidence"], timeout=600)
-            v = [re.sub(r"/tmp/rainseed\.[^/]+/", "", l.strip())[:400] for l in out.splitlines() if l.startswith("  violated")]
-            return p, rc, v
-        with ThreadPoolExecutor(max_workers=6) as ex:
-            res = list(ex.map(one, props))
-        return {p: {"exit": rc, "violations": v[:4]} for p, rc, v in res}
+        rc, out = sh([ROOT + "/bin/rainlint", "-prop", ",".join(props), "-repo", tmp, "-verif", ROOT, "-no-evidence"], timeout=1200)
+        res = {}
+        cur = None
+        for l in out.splitlines():
+            m = re.match(r"PROP (C\d+) exit=(\d+)", l)
+            if m:
+                cur = m.group(1)
+                res[cur] = {"exit": int(m.group(2)), "violations": []}
+            elif cur and l.startswith("  violated") and len(res[cur]["violations"]) < 4:
+                res[cur]["violations"].append(re.sub(r"/tmp/rainseed\.[^/]+/", "", l.strip())[:400])
+        if not res:
+            return {"error": out[-400:]}
+        return res
     finally:
         shutil.rmtree(tmp, ignore_errors=True)
 
